@@ -57,6 +57,8 @@ CALLS = {
     "created::CreatedWords::add_word": (None, {1: MC}),
     "created::CreatedWords::single": (None, {0: MC}),
     "regex::Match::start": (MB, {}), "regex::Match::end": (MB, {}), "regex::Match::range": (MB, {}), "regex::Match::len": (MB, {}),
+    "fancy_regex::Match::start": (MB, {}), "fancy_regex::Match::end": (MB, {}), "fancy_regex::Match::range": (MB, {}),
+    "sentence_detector::prohibited_bos": (MB, {}),
     "aho_corasick::Match::start": (MB, {}), "aho_corasick::Match::end": (MB, {}), "aho_corasick::Match::range": (MB, {}),
     # Python slices of the original str are in code points
     "PySlice::new": (None, {1: OC, 2: OC}),
@@ -115,6 +117,9 @@ class Units:
         self.conflicts = []
         self.reached = 0
         self.scratch = any(f.short().endswith(s) for s in SCRATCH_FNS)
+        # plain-&str code (sentence detection works on the raw text, no offset tables): there str::len() is a byte length and
+        # chars().count() a number of code points
+        self.plain_str = "::sentence_detector::" in f.key or "::sentence_splitter::" in f.key
 
     # -- seeds ------------------------------------------------------------------
     def call_seed(self, n):
@@ -165,10 +170,28 @@ class Units:
     def _space(self, e, depth):
         e = unwrap_try(peel_casts(e))
         k = e.get("k")
+        if k == "Call" and path_ends(e.get("callee") or "", ("Result::Ok", "Ok", "Option::Some", "Some")) and e.get("args"):
+            return self.space(e["args"][0], depth + 1)
+        if k in ("If", "Match", "Block") and e.get("src") not in ("ForLoopDesugar",):
+            vals = {self.space(x, depth + 1) for x in self._tails(e)}
+            vals.discard(None)
+            return vals.pop() if len(vals) == 1 else None
         if k in ("Call", "MethodCall"):
             suf, v = self.call_seed(e)
             if v and v[0]:
                 return v[0]
+            if self.plain_str and k == "MethodCall":
+                chain = []
+                cur = e
+                while isinstance(cur, dict) and cur.get("k") == "MethodCall":
+                    chain.append(cur["method"])
+                    cur = peel(cur["recv"])
+                if e["method"] == "count" and ("chars" in chain or "char_indices" in chain):
+                    return MC
+                if e["method"] == "len" and (e.get("rty") or "").replace("&", "").strip() in ("str", "std::string::String", "String", "'_ str"):
+                    return MB
+                if e["method"] == "len_utf8":
+                    return MB
             if k == "MethodCall" and e.get("method") in ("min", "max", "clone", "saturating_sub", "saturating_add", "wrapping_sub", "start", "end", "len") and e.get("method") != "len":
                 return self.space(e["recv"], depth + 1)
             if k == "MethodCall" and e.get("method") in ("start", "end") or (k == "MethodCall" and e.get("method") in ("range",)):
@@ -205,6 +228,24 @@ class Units:
         if k == "Path" and e.get("res") == "local":
             return self.local_space(e, depth)
         return None
+
+    def _tails(self, e):
+        e = peel(e)
+        if not isinstance(e, dict):
+            return []
+        k = e.get("k")
+        if k == "Block":
+            return self._tails(e["expr"]) if "expr" in e else []
+        if k == "If":
+            return self._tails(e["then"]) + (self._tails(e["else"]) if "else" in e else [])
+        if k == "Match" and e.get("src") not in ("ForLoopDesugar", "TryDesugar"):
+            out = []
+            for a in e["arms"]:
+                out += self._tails(a["body"])
+            return out
+        if k == "Ret":
+            return []
+        return [e]
 
     def local_space(self, e, depth):
         bd = self.b.get(e["lid"])
@@ -321,6 +362,12 @@ class Units:
                         self.conflicts.append((n, "comparison of %s with %s" % (a, b)))
             elif k == "Binary" and n.get("op") in ("Add", "Sub"):
                 self.space(n)
+            elif k == "AssignOp" and n.get("op") in ("Add", "Sub"):
+                a, b = self.space(n["l"]), self.space(n["r"])
+                if a and b:
+                    self.reached += 1
+                    if a != b:
+                        self.conflicts.append((n, "`%s %s= %s` mixes %s and %s" % (render(n["l"]), "+" if n["op"] == "Add" else "-", render(n["r"])[:50], a, b)))
         # return value against the function's own seed
         ret = self.f.hir.get("expr") if self.f.hir.get("k") == "Block" else None
         if ret is not None:
